@@ -2,6 +2,8 @@
 import json, os, re
 from ..ir import Program
 from .. import frontend, api, par, capcheck
+from ..pathflags import Engine, Plugin, BudgetExceeded
+from ..lin import Lin
 
 VERIF = frontend.VERIF
 
@@ -10,11 +12,102 @@ def worker(prog, key):
     tu, name = key
     fn = next(f for f in prog.allfuncs if f.name == name and f.mod["tu"] == tu)
     roles = worker.roles
-    res, info = capcheck.analyse(fn, roles.get(name, []), prog, roles)
+    rl = roles.get(name, [])
+    if capcheck.NOSLACK and name in ("handle_error", "handle_werror"):
+        rl = []          # in the no-slack build their length parameter is unused, not a capacity: the one-element store is an obligation of each call site
+    res, info = capcheck.analyse(fn, rl, prog, roles)
+    und = [x for x in res if not (x["lo"] and x["hi"]) and x.get("const_index") and not x["role"].startswith(("local:", "global:"))
+           and (x["what"] in ("store", "load") or (capcheck.NOSLACK and x["what"] in ("call handle_error", "call handle_werror")))]
+    if und:
+        refine(prog, fn, rl, res)
     return dict(res=res, loops=info["loops"], file=fn.file)
 
 
+class BoundFlags(Plugin):
+    """path-sensitive second opinion for accesses at a constant offset of a caller buffer: is 'offset + size <= declared size' decided on every path reaching the access?"""
+    inline_depth = 0
+
+    def __init__(s, caps):
+        s.caps = caps            # param id -> (size param id, unit)
+
+    def init(s, eng):
+        s.pinned = {c[0] for c in s.caps.values()}
+        s.seen = {}
+        return frozenset()       # values loaded from caller memory since the last store / call: {(root, offset, value)} (two loads of *srcp agree)
+
+    def load_value(s, pl, p, i, fr, env, eng):
+        if p[0] == "p":
+            for (r, o, v) in pl:
+                if r == p[1] and o == p[2]:
+                    return v
+        return None
+
+    def on_event(s, pl, ev, eng, st):
+        if ev[0] == "store" or ev[0] == "indirect":
+            pl = frozenset()
+        elif ev[0] == "load" and ev[1][0] == "p" and "id" in ev[2] and not any(r == ev[1][1] and o == ev[1][2] for (r, o, v) in pl) and len(pl) < 8:
+            v = eng.opaque(ev[3], ev[2]["id"], ev[2]["ty"])
+            s.pinned.add("&" + v[1] if v[0] == "p" else ev[3].pre + ev[2]["id"])      # facts about a remembered value outlive its SSA name
+            pl = pl | {(ev[1][1], ev[1][2], v)}
+        if ev[0] in ("load", "store"):
+            p = ev[1]
+            inst, fr = (ev[2], ev[3]) if ev[0] == "load" else (ev[3], ev[4])
+            if fr.depth == 0 and p[0] == "p" and p[1] in s.caps and p[2].is_const():
+                sz, unit = s.caps[p[1]]
+                need = p[2] + Lin.const(inst.get("size", 1))
+                ok = p[2].c >= 0 and eng.decide(("cmp", "uge", Lin.atom(sz).scale(unit), need), st[1]) is True
+                k = (inst["_bb"], inst["_k"])
+                s.seen[k] = s.seen.get(k, True) and ok
+        return pl
+
+    def on_call(s, pl, call, eng, st):
+        pl0, pl = pl, frozenset()
+        if call[0] == "ext" and (call[1].startswith("llvm.") or not call[2].get("w")) and not call[2].get("barrier"):
+            pl = pl0          # readers and intrinsics leave caller memory alone
+        if call[0] == "lib" and capcheck.NOSLACK and call[1].name in ("handle_error", "handle_werror") and call[4].depth == 0:
+            p, inst = call[2][0], call[3]
+            if p[0] == "p" and p[1] in s.caps and p[2].is_const():
+                sz, unit = s.caps[p[1]]
+                need = p[2] + Lin.const(4 if call[1].name == "handle_werror" else 1)
+                ok = p[2].c >= 0 and eng.decide(("cmp", "uge", Lin.atom(sz).scale(unit), need), st[1]) is True
+                k = (inst["_bb"], inst["_k"])
+                s.seen[k] = s.seen.get(k, True) and ok
+        return [(pl, [])]
+
+
+def refine(prog, fn, rl, res):
+    pn = fn.pnames
+    caps = {}
+    for (buf, ln, unit) in rl:
+        if buf in pn and ln in pn and pn[ln]["ty"] == "i64":
+            caps[pn[buf]["id"]] = (pn[ln]["id"], unit or {"i8*": 1, "i16*": 2, "i32*": 4, "i64*": 8}.get(pn[buf]["ty"], 1))
+    if not caps:
+        return
+    pg = BoundFlags(caps)
+    eng = Engine(prog, fn, pg, budget=60000)
+    try:
+        eng.run()
+    except BudgetExceeded:
+        return
+    by_line = {}
+    for b in fn.j["blocks"]:
+        for i in b["insts"]:
+            if (i["_bb"], i["_k"]) in pg.seen:
+                what = i["op"] if i["op"] in ("load", "store") else "call " + (i.get("callee") or "")
+                by_line.setdefault((what, i.get("line")), []).append(pg.seen[(i["_bb"], i["_k"])])
+    for x in res:
+        if not (x["lo"] and x["hi"]) and x.get("const_index") and (x["what"] in ("store", "load") or x["what"] in ("call handle_error", "call handle_werror")):
+            v = by_line.get((x["what"], x["line"]))
+            if v and all(v):
+                x["lo"] = x["hi"] = True
+                x["refined"] = "path-sensitive"
+
+
+_DEFAULT_SEEN = {}      # key -> (offset, size, capacity) of the undischarged obligations of the default build (same access in the no-slack build = same finding)
+
+
 def run(ck, pid, kind, floor_obl, floor_fn):
+    _DEFAULT_SEEN.clear()
     prog, info, st = run_config(ck, pid, kind, floor_obl, floor_fn, "default")
     if ck.tier == "thorough":
         # the no-slack build compiles different clearing code (single terminator stores instead of memsets): same obligations, own keys
@@ -27,6 +120,7 @@ def run(ck, pid, kind, floor_obl, floor_fn):
 def run_config(ck, pid, kind, floor_obl, floor_fn, config):
     mods, info = frontend.load_modules(config=config)
     prog = Program(mods)
+    capcheck.NOSLACK = (config == "noslack")
     sfx = "" if config == "default" else ":" + config
     note = "" if config == "default" else " [no-slack configuration]"
     worker.roles = capcheck.all_roles(prog)
@@ -61,7 +155,13 @@ def run_config(ck, pid, kind, floor_obl, floor_fn, config):
                 reach_fns.setdefault(base, why)
                 continue
             what = x["what"].replace(" ", "-")
-            key = "%s:%s:%s:%s:%s#%d%s" % (pid, base, "write" if kind == "W" else "read", what, x["role"], x["ordinal"], sfx)
+            key = "%s:%s:%s:%s:%s#%d" % (pid, base, "write" if kind == "W" else "read", what, x["role"], x["ordinal"])
+            sig3 = (x["off"], x["size"], x["cap"])
+            if config == "default":
+                _DEFAULT_SEEN[key] = sig3
+            elif _DEFAULT_SEEN.get(key) != sig3:
+                key += sfx            # not the same access as in the default build: its own finding
+
             bound = "not provably >= 0" if not x["lo"] else ""
             bound += (" and " if bound and not x["hi"] else "") + ("off + size <= capacity not entailed" if not x["hi"] else "")
             ck.report(key, "B-%s-in-bounds" % ("write" if kind == "W" else "read"), "%s:%s" % (res[k]["file"], x["line"]),
